@@ -17,6 +17,12 @@ LEDGER_MODELS = [
 ]
 
 
+VENUE_MODELS = [
+    {"name": "venue", "module": "MC_Venue.tla", "cfg": {"quick": "MC_VenueQuick.cfg", "thorough": "MC_VenueThorough.cfg"},
+     "setup": "setups/venue.json", "init_from_setup": True, "timeout": {"quick": 900, "thorough": 7200}},
+]
+
+
 def succ(names):
     names = set(names)
     return lambda e: (e.get("ev"), json_key(e.get("a"))) if e.get("ev") in names and e.get("res") == "ok" else None
@@ -165,8 +171,8 @@ PROPS = {
                       LIQ_DRIVERS + RISK_DRIVERS + ADMIN_DRIVERS + STAKED_DRIVERS, models=RISK_MODELS + CONFIG_MODELS),
     "C14": risk_prop2(["deposit", "withdraw", "borrow", "repay", "liquidate", "bankruptcy", "propagate_fee"], LIQ_DRIVERS + RISK_DRIVERS, models=GATE_MODELS),
     "C01": ledger_prop(),
-    "C02": dict(ledger_prop(extra_ops=["purge", "transfer_account", "kamino_deposit", "kamino_withdraw"]), drivers=LEDGER_DRIVERS + LIQ_DRIVERS + ADMIN_DRIVERS + KAMINO_DRIVERS),
-    "C03": dict(ledger_prop(extra_ops=["kamino_deposit", "kamino_withdraw"]), drivers=LEDGER_DRIVERS + KAMINO_DRIVERS),
+    "C02": dict(ledger_prop(extra_ops=["purge", "transfer_account", "kamino_deposit", "kamino_withdraw"]), drivers=LEDGER_DRIVERS + LIQ_DRIVERS + ADMIN_DRIVERS + KAMINO_DRIVERS, models=LEDGER_MODELS + VENUE_MODELS),
+    "C03": dict(ledger_prop(extra_ops=["kamino_deposit", "kamino_withdraw"]), drivers=LEDGER_DRIVERS + KAMINO_DRIVERS, models=LEDGER_MODELS + VENUE_MODELS),
     "C06": dict(ledger_prop(), drivers=LEDGER_DRIVERS + [{"name": "caps", "args": {"quick": [200], "thorough": [4000]}}]),
     "C16": dict(ledger_prop(), drivers=LEDGER_DRIVERS + [{"name": "struct", "args": {"quick": [60], "thorough": [2000]}}] + LIQ_DRIVERS + STAKED_DRIVERS + ADMIN_DRIVERS + KAMINO_DRIVERS),
     "C17": dict(ledger_prop(), drivers=LEDGER_DRIVERS + [{"name": "caps", "args": {"quick": [300], "thorough": [8000]}}]),
